@@ -1,2 +1,81 @@
 """Registered static facts. (filled in as properties are built)"""
 from vlib.static_checks import static  # noqa: F401
+
+import os, re, glob, subprocess, tempfile, shutil, concurrent.futures as cf
+from vlib.core import REPO, BASE_DEFS, BASE_INCS
+
+# writable objects of static storage duration the library is known to have (anything else fails the census)
+ALLOWED_GLOBALS = {
+    "imb_errno": "process-wide mirror of the last error (documented fallback of imb_get_errno)",
+    "cpuid_1_0": "cached CPUID leaf", "cpuid_7_0": "cached CPUID leaf", "cpuid_7_1": "cached CPUID leaf",
+    "imb_set_session::1::counter": "session id generator (feeds session_id only)",
+    "kasumiWrapperArray": "KASUMI dispatch table of function pointers in kasumi_internal.h: not const-qualified but never assigned",
+}
+
+
+def _symbols(cfile, wd):
+    out = os.path.join(wd, os.path.basename(cfile) + ".gb")
+    extra = []
+    p = subprocess.run(["goto-cc", "-std=c99"] + BASE_DEFS + BASE_INCS + extra + ["-c", cfile, "-o", out], stdout=subprocess.PIPE, stderr=subprocess.PIPE)
+    if p.returncode != 0:
+        return cfile, None, (p.stdout + p.stderr).decode(errors="replace")[-300:]
+    q = subprocess.run(["goto-instrument", "--show-symbol-table", out], stdout=subprocess.PIPE, stderr=subprocess.DEVNULL)
+    syms, cur = [], {}
+    for ln in q.stdout.decode(errors="replace").splitlines():
+        if ln.startswith("Symbol......: "):
+            if cur:
+                syms.append(cur)
+            cur = {"name": ln[14:].strip()}
+        elif ln.startswith("Type........: "):
+            cur["type"] = ln[14:].strip()
+        elif ln.startswith("Flags.......: "):
+            cur["flags"] = ln[14:].strip()
+        elif ln.startswith("Location....: "):
+            cur["loc"] = ln[14:].strip()
+    if cur:
+        syms.append(cur)
+    return cfile, syms, ""
+
+
+@static("c17_global_census", ["C17"])
+def c17_global_census():
+    files = sorted(glob.glob(os.path.join(REPO, "lib", "*", "*.c")))
+    wd = tempfile.mkdtemp(prefix="verif_c17_")
+    viol, samples, facts, errs = [], [], 0, []
+    try:
+        with cf.ThreadPoolExecutor(max_workers=14) as ex:
+            res = list(ex.map(lambda f: _symbols(f, wd), files))
+    finally:
+        shutil.rmtree(wd, ignore_errors=True)
+    seen = {}
+    for cfile, syms, err in res:
+        if syms is None:
+            errs.append("%s: %s" % (cfile, err))
+            continue
+        for s in syms:
+            fl = s.get("flags", "")
+            ty = s.get("type", "")
+            loc = s.get("loc", "")
+            if "static_lifetime" not in fl or "lvalue" not in fl:
+                continue
+            if "/repo/lib" not in loc and REPO + "/lib" not in loc:
+                continue
+            if ty.startswith("const ") or " const" in ty.split("[")[0] or "(" in ty:   # const data, functions
+                continue
+            if s["name"].startswith("__CPROVER") or "::$" in s["name"] or s["name"].endswith("$link1"):
+                continue
+            base = re.sub(r"\$link\d+$", "", s["name"])
+            seen.setdefault(base, set()).add(os.path.relpath(cfile, REPO))
+    for name, where in sorted(seen.items()):
+        facts += 1
+        if name in ALLOWED_GLOBALS:
+            if len(samples) < 4:
+                samples.append({"unit": "c17_global_census", "obligation": "writable global " + name, "description": ALLOWED_GLOBALS[name], "at": ", ".join(sorted(where))[:120], "status": "SUCCESS"})
+        else:
+            viol.append({"name": "c17_global_census." + name, "description": "[C17] writable object of static storage duration not in the census: %s (%s)" % (name, ", ".join(sorted(where))[:200]),
+                         "loc": ", ".join(sorted(where))[:200], "detail": "a new process-wide mutable object can couple independent managers / threads"})
+    if errs:
+        raise RuntimeError("census could not compile: " + "; ".join(errs[:3]))
+    facts = max(facts, 1)
+    return {"facts": facts, "violations": viol, "samples": samples,
+            "trusted": ["census reads goto-cc symbol tables of all %d C translation units of lib/ (NASM data sections are not covered)" % len(files)]}
